@@ -341,7 +341,26 @@ class C12(Prop):
     id = "C12"
     driver = "C12"
     lean_modules = ["Pfb.C12.Props"]
-    theorems = []
+    theorems = [
+        "Pfb.C12.C12_path",
+        "Pfb.C12.C12_push_order",
+        "Pfb.C12.C12_path_files",
+        "Pfb.C12.C12_path_explicit_kept",
+        "Pfb.C12.C12_path_skips",
+        "Pfb.C12.C12_union",
+        "Pfb.C12.C12_union_error",
+        "Pfb.C12.C12_canonical_last_wins",
+        "Pfb.C12.C12_forget_everywhere",
+        "Pfb.C12.C12_lookup_nonempty_partial",
+        "Pfb.C12.C12_lookup_nonempty_fixed",
+        "Pfb.C12.C12_fresh_is_uncached",
+        "Pfb.C12.C12_cache_coherent",
+        "Pfb.C12.C12_cache_invariant",
+        "Pfb.C12.C12_default_db",
+        "Pfb.C12.D15_entry_empty",
+        "Pfb.C12.D15_lookup_empty",
+        "Pfb.C12.D15_fixed_lookup",
+    ]
     anchors = [
         ("lib/python/pyflyby/_importdb.py", "_get_env_var"),
         ("lib/python/pyflyby/_importdb.py", "_get_python_path"),
